@@ -14,6 +14,10 @@ Modes (input.mode):
             and final answer compared for equality.
   malformed arbitrary / mutated bytes: only "no panic" and "accepted ⇒ all rules".
   gcstress  repeated decodes of the zero-fill crash witness while the GC runs: no crash.
+  encstress concurrent Encode calls: every caller still holds the bytes it was given.
+In valid / violate mode the harness keeps the first encoding while a second message of the
+same length is encoded and reports in `impl.alias` if the kept bytes (or, after the input
+buffer has been overwritten, the decoded value) changed.
 In the last three modes `impl.oob` (explicit-zeros probe of the harness) must be empty.
 -/
 open Lean AutoVerif.Codec
@@ -119,6 +123,15 @@ structure Ops (α : Type) where
   size     : α → Nat
   shape    : α → List String
 
+/-- the all-zero extension (what `"LogTriggerExtension":{}` decodes to) -/
+def zeroExt (t : Trigger) : Bool :=
+  match t.ext with
+  | none => false
+  | some e => e.index == 0 && e.blockNumber == 0 && e.txHash.all (· == '0') && e.blockHash.all (· == '0')
+
+/-- upkeep ids of the entries that carry a log extension: a repetition = one log upkeep with several logs -/
+def logIds (ts : List (String × Trigger)) : List String := (ts.filter (·.2.ext.isSome)).map (·.1)
+
 def obsOps : Ops Observation where
   key := "obs"
   dec := observation
@@ -131,6 +144,9 @@ def obsOps : Ops Observation where
   shape o :=
     (if o.performable.any (·.trigger.ext.isSome) || o.proposals.any (·.trigger.ext.isSome) then ["has-log-ext"] else []) ++
     (if o.performable.any (·.trigger.ext.isNone) || o.proposals.any (·.trigger.ext.isNone) then ["has-no-ext"] else []) ++
+    (if !decide (logIds (o.performable.map (fun r => (r.upkeepID, r.trigger)) ++ o.proposals.map (fun p => (p.upkeepID, p.trigger)))).Nodup
+      then ["repeated-log-upkeep"] else []) ++
+    (if o.performable.any (zeroExt ·.trigger) || o.proposals.any (zeroExt ·.trigger) then ["zero-ext"] else []) ++
     (if o.performable.any (·.performData == "") then ["empty-perform-data"] else []) ++
     (if o.performable.any (fun r => decide (r.performData.length > 2000)) then ["long-perform-data"] else []) ++
     (if o.performable.any (fun r => r.fastGasWei == some uint256Max || r.linkNative == some uint256Max) then ["price=uint256max"] else []) ++
@@ -151,6 +167,9 @@ def outcomeOps : Ops Outcome where
   shape o :=
     (if o.agreed.any (·.trigger.ext.isSome) || o.surfaced.any (·.any (·.trigger.ext.isSome)) then ["has-log-ext"] else []) ++
     (if o.agreed.any (·.trigger.ext.isNone) || o.surfaced.any (·.any (·.trigger.ext.isNone)) then ["has-no-ext"] else []) ++
+    (if !decide (logIds (o.agreed.map (fun r => (r.upkeepID, r.trigger)) ++ o.surfaced.flatten.map (fun p => (p.upkeepID, p.trigger)))).Nodup
+      then ["repeated-log-upkeep"] else []) ++
+    (if o.agreed.any (zeroExt ·.trigger) || o.surfaced.any (·.any (zeroExt ·.trigger)) then ["zero-ext"] else []) ++
     (if o.agreed.any (·.performData == "") then ["empty-perform-data"] else []) ++
     (if o.agreed.length == Gen.outcomeAgreedPerformablesLimit then ["agreed=limit"] else []) ++
     (if o.surfaced.length == Gen.outcomeSurfacedProposalsRoundHistoryLimit then ["rounds=limit"] else []) ++
@@ -182,7 +201,10 @@ def handleK {α} [DecidableEq α] (ops : Ops α) (input impl : Json) : R Reply :
   let c : Codec := match fieldD impl "codec" .null with | .str "std" => .std | _ => .goccy
   let oobText := match fieldD impl "oob" .null with | .str s => s | _ => ""
   let oob := oobText != ""
+  let aliasText := match fieldD impl "alias" .null with | .str s => s | _ => ""
+  let alias := aliasText != ""
   let crashTags :=
+    (if alias then ["aliasing"] else []) ++
     (if oob then ["oob-zero-fill"] else []) ++
     (match ia with
       | .panicked =>
@@ -197,16 +219,16 @@ def handleK {α} [DecidableEq α] (ops : Ops α) (input impl : Json) : R Reply :
     let treeEq := jEqv (ops.toJ x) tree
     let pureRT := decide (ops.fromJ c (ops.toJ x) = some x)
     let sm := specRoundTrip x ma && pureRT
-    let si := specRoundTrip x ia
+    let si := specRoundTrip x ia && specRetained alias
     let agree := decide (ma = ia) && treeEq
     pure { agree := agree, specModel := sm, specImpl := si,
            diff := if agree then "" else
              (if treeEq then "" else "toJson(value) differs from the tree of the Go bytes; ") ++
              s!"model={answerStr ma} impl={answerStr ia}",
-           fail := if si then "" else explainRoundTrip ia,
+           fail := if si then "" else if alias then explainAlias ++ ": " ++ aliasText else explainRoundTrip ia,
            nontrivial := decide (ops.size x ≥ 1),
            tags := [s!"{kind}:valid"] ++ (ops.shape x).map (fun s => s!"{kind}:{s}") ++
-                   (if ops.wf x then [] else ["ill-formed-input"]) }
+                   (if ops.wf x then [] else ["ill-formed-input"]) ++ crashTags }
   | "violate" =>
     let x ← ops.dec (← field input kind)
     let want ← strF input "rule"
@@ -215,13 +237,15 @@ def handleK {α} [DecidableEq α] (ops : Ops α) (input impl : Json) : R Reply :
     let mv := ops.validate utg wg x
     let treeEq := jEqv (ops.toJ x) tree
     let sm := specRejected ma && !mv.isOk
-    let si := specRejected ia
+    let si := specRejected ia && specRetained alias
     let agree := decide (ma = ia) && answerStr ma == want && treeEq
     pure { agree := agree, specModel := sm, specImpl := si,
            diff := if agree then "" else s!"rule broken={want} model={answerStr ma} impl={answerStr ia} treeEq={treeEq}",
-           fail := if si then "" else explainRejected ia ++ s!" (rule {want})",
+           fail := if si then "" else if alias then explainAlias ++ ": " ++ aliasText else explainRejected ia ++ s!" (rule {want})",
            nontrivial := true,
-           tags := [s!"{kind}:violate", s!"{kind}:rule:{want}"] }
+           tags := [s!"{kind}:violate", s!"{kind}:rule:{want}"] ++
+                   ((ops.shape x).filter (fun t => t == "zero-ext" || t == "repeated-log-upkeep")).map (fun t => s!"{kind}:violate:{t}") ++
+                   crashTags }
   | "lenient" =>
     let tree ← parseTree impl
     let mu := ops.fromJ c tree
@@ -236,6 +260,13 @@ def handleK {α} [DecidableEq α] (ops : Ops α) (input impl : Json) : R Reply :
            fail := if si then "" else if oob then explainOob ++ ": " ++ oobText else explainArbitrary ia,
            nontrivial := true,
            tags := [s!"{kind}:lenient", s!"{kind}:lenient:{answerStr ia}"] ++ crashTags }
+  | "encstress" =>
+    -- concurrent encoders: every goroutine still holds what it encoded
+    let si := specRetained alias && specNoCrash ia false
+    pure { agree := true, specModel := true, specImpl := si,
+           fail := if si then "" else if alias then explainAlias ++ ": " ++ aliasText else explainArbitrary ia,
+           nontrivial := true,
+           tags := [s!"{kind}:encstress"] ++ crashTags }
   | "gcstress" =>
     -- crash witness of the array zero-fill: repeated decodes while the collector runs
     let si := specNoCrash ia oob
